@@ -249,6 +249,7 @@ func cmdCheck(args []string) int {
 		funcs = append(funcs, "lemma "+l.Name)
 		obls = append(obls, os2...)
 	}
+	obls = append(obls, prog.checkImmutable()...)
 	if *only != "" {
 		var f []*Obligation
 		for _, o := range obls {
@@ -282,6 +283,9 @@ func cmdCheck(args []string) int {
 	sem := make(chan struct{}, 6)
 	for _, o := range all {
 		o := o
+		if o.Backend == "syntactic-scan" {
+			continue
+		}
 		wg.Add(1)
 		sem <- struct{}{}
 		go func() {
